@@ -66,6 +66,8 @@ func c01HTTP(r *ev.Result) {
 	}
 	c01HTTPRefusedStreamer(r)
 	n++
+	c01HTTPRefusalBurst(r)
+	n++
 	r.Evaluations += n
 	r.Distinct += n
 	r.Traces += n
@@ -267,5 +269,46 @@ func init() {
 			fmt.Println(v.Signature, v.What)
 		}
 		return 0
+	}
+}
+
+// c01HTTPRefusalBurst: one host makes several attempts that must be refused,
+// one right after the other; the operator is told about every one of them.
+func c01HTTPRefusalBurst(r *ev.Result) {
+	w, err := hworld.Start(hworld.Config{})
+	if nil != err {
+		ev.Broken("%s", err)
+	}
+	defer w.Stop()
+	held, err := c01Stream{"i", "held"}.open(w)
+	if nil != err {
+		ev.Broken("%s", err)
+	}
+	defer held.Close()
+	w.WaitNotice(func(cl opshell.CLine) bool { return strings.Contains(cl.Line, "Input connected") })
+	burst := []c01Stream{{"o", "other-1"}, {"i", "held"}, {"o", "other-2"}, {"i", "third"}, {"o", "other-3"}}
+	var conns []*hworld.Conn
+	for _, s := range burst {
+		c, err := s.open(w)
+		if nil != err {
+			ev.Broken("%s", err)
+		}
+		conns = append(conns, c)
+	}
+	defer func() {
+		for _, c := range conns {
+			c.Close()
+		}
+	}()
+	n := 0
+	ns, _ := w.WaitNotice(func(cl opshell.CLine) bool {
+		if strings.Contains(cl.Line, "Rejected ") {
+			n++
+		}
+		return n >= len(burst)
+	})
+	if n != len(burst) {
+		r.Violate(ev.Violation{Signature: "http/refusal-not-announced/burst", Kind: "c01http", Replay: map[string]any{"http_seam": burst},
+			What: fmt.Sprintf("with an input stream held, one host made %d attempts that must be refused, one right after the other (%+v): the operator was told about %d of them: %s", len(burst), burst, n, trunc80(hworld.NoticeText(ns)))})
 	}
 }
